@@ -5,15 +5,12 @@ package c19
 import (
 	"bytes"
 	"context"
+	"crypto"
 	"crypto/ecdsa"
-	"crypto/elliptic"
-	"crypto/rand"
 	"crypto/sha256"
-	"crypto/x509"
 	"database/sql"
 	"encoding/base64"
 	"encoding/json"
-	"encoding/pem"
 	"fmt"
 	mrand "math/rand"
 	"net/http"
@@ -43,6 +40,8 @@ type Cand struct {
 	Signer string `json:"signer"` // whose key made the signature bytes
 	Idf    string `json:"idf"`
 	Over   Donor  `json:"over"` // what the signature bytes were made over: K "none" = this candidate's own content
+	Hdr    Hdr    `json:"hdr"`  // the two header bytes of the DigitallySigned (labels of Witness.tla)
+	Form   string `json:"form"` // what the signature bytes are: signed, garbage, rawkey, crafted (see hdr.go)
 }
 
 // Donor names the genuine STH (of log Cand.Signer) whose signature bytes a candidate carries: a replayed signature.
@@ -62,13 +61,14 @@ func (c Cand) IsReplay() bool { return c.K == "sth" && c.Over.K == "sig" }
 
 // DonorCand is the genuine STH whose signature bytes a replay carries.
 func (c Cand) DonorCand() Cand {
-	return Cand{K: "sth", Fam: c.Over.Fam, Size: c.Over.Size, TS: c.Over.TS, Signer: c.Signer, Idf: c.Over.Idf, Over: NoDonor}
+	return Cand{K: "sth", Fam: c.Over.Fam, Size: c.Over.Size, TS: c.Over.TS, Signer: c.Signer, Idf: c.Over.Idf, Over: NoDonor,
+		Hdr: StdHdr(c.Signer), Form: "signed"}
 }
 
 // Forge puts content (fam, size, ts) under the signature bytes of the genuine STH g.
 func Forge(fam string, size, ts int, idf string, g Cand) Cand {
 	return Cand{K: "sth", Fam: fam, Size: size, TS: ts, Signer: g.Signer, Idf: idf,
-		Over: Donor{K: "sig", Fam: g.Fam, Size: g.Size, TS: g.TS, Idf: g.Idf}}
+		Over: Donor{K: "sig", Fam: g.Fam, Size: g.Size, TS: g.TS, Idf: g.Idf}, Hdr: StdHdr(g.Signer), Form: "signed"}
 }
 
 func (c Cand) String() string {
@@ -79,16 +79,27 @@ func (c Cand) String() string {
 	if c.IsReplay() {
 		s += fmt.Sprintf("/sigof:%s%d/t%d/%s", c.Over.Fam, c.Over.Size, c.Over.TS, c.Over.Idf)
 	}
+	if c.IsHdr() {
+		s += "/hdr:" + c.HdrClass()
+	}
 	return s
 }
 
-// norm gives candidates decoded from JSON without an `over` field the plain one.
+// norm gives candidates decoded from JSON without an `over` / `hdr` / `form` field the plain ones.
 func (c Cand) norm() Cand {
 	if c.K == "sth" && c.Over.K != "sig" {
 		c.Over = NoDonor
 	}
 	if c.K != "sth" {
 		c.Over = Donor{}
+		c.Hdr, c.Form = Hdr{}, ""
+		return c
+	}
+	if c.Form == "" {
+		c.Form = "signed"
+	}
+	if c.Hdr.Hash == "" && c.Hdr.Alg == "" {
+		c.Hdr = StdHdr(c.Signer)
 	}
 	return c
 }
@@ -119,7 +130,7 @@ type Step struct {
 type World struct {
 	ForkAt  int
 	MaxSize int
-	Keys    map[string]*ecdsa.PrivateKey // L1, L2, LX (unknown to the witness), bad (signs junk)
+	Keys    map[string]crypto.Signer // L1 (ECDSA P-256), L2 (RSA 2048), LX (unknown to the witness), bad (signs junk)
 	IDs     map[string]string            // log name -> base64 log id
 	IDBytes map[string][]byte
 	WitKey  *ecdsa.PrivateKey
@@ -134,40 +145,17 @@ type World struct {
 
 // NewWorld generates keys and the two tree families.
 func NewWorld(forkAt, maxSize int, rng *mrand.Rand) (*World, error) {
-	w := &World{ForkAt: forkAt, MaxSize: maxSize, Keys: map[string]*ecdsa.PrivateKey{}, IDs: map[string]string{},
-		IDBytes: map[string][]byte{}, Trees: map[string]*ref.Tree{}, rawMemo: map[string][]byte{}, sigs: map[string][]byte{}, sigMemo: map[string]Cand{}, rng: rng}
-	for _, n := range []string{"L1", "L2", "LX", "bad"} {
-		for {
-			k, err := ecdsa.GenerateKey(elliptic.P256(), rand.Reader)
-			if err != nil {
-				return nil, err
-			}
-			w.Keys[n] = k
-			id, _, err := ref.KeyID(&k.PublicKey)
-			if err != nil {
-				return nil, err
-			}
-			w.IDBytes[n] = id
-			w.IDs[n] = base64.StdEncoding.EncodeToString(id)
-			// the URL-safe spelling must differ from the configured one
-			if strings.ContainsAny(w.IDs[n], "+/") {
-				break
-			}
-		}
+	w := &World{ForkAt: forkAt, MaxSize: maxSize, Trees: map[string]*ref.Tree{}, rawMemo: map[string][]byte{}, sigs: map[string][]byte{}, sigMemo: map[string]Cand{}, rng: rng}
+	// the keys are made once per process and shared by all worlds (they are only read): the crafted
+	// signatures of hdr.go, which cost a search, are then made once per log too
+	r, err := theRing()
+	if err != nil {
+		return nil, err
 	}
+	w.Keys, w.IDs, w.IDBytes, w.WitKey, w.WitPEM = r.keys, r.ids, r.idBytes, r.witKey, r.witPEM
 	if err := w.checkSpellings(); err != nil {
 		return nil, err
 	}
-	wk, err := ecdsa.GenerateKey(elliptic.P256(), rand.Reader)
-	if err != nil {
-		return nil, err
-	}
-	w.WitKey = wk
-	der, err := x509.MarshalPKCS8PrivateKey(wk)
-	if err != nil {
-		return nil, err
-	}
-	w.WitPEM = string(pem.EncodeToMemory(&pem.Block{Type: "PRIVATE KEY", Bytes: der}))
 	h, f := ref.NewTree(), ref.NewTree()
 	for i := 1; i <= maxSize; i++ {
 		h.Append([]byte(fmt.Sprintf("h%d", i)))
@@ -293,7 +281,25 @@ func (w *World) LogOfID(s string) string {
 type infra string
 
 // Root of a candidate's tree head.
-func (w *World) Root(c Cand) []byte { return w.Trees[c.Fam].Root(c.Size) }
+func (w *World) Root(c Cand) []byte {
+	if c.Fam == "X" {
+		return w.crafted(c.Signer).root
+	}
+	return w.Trees[c.Fam].Root(c.Size)
+}
+
+// Pub is the public key of a log (or of "bad").
+func (w *World) Pub(n string) crypto.PublicKey { return w.Keys[n].Public() }
+
+// content is what a log signature covers: timestamp, tree size, root.  The content of a crafted candidate
+// (family "X") is dictated by its signature.
+func (w *World) content(c Cand) (ts, size uint64, root []byte) {
+	if c.Fam == "X" {
+		cr := w.crafted(c.Signer)
+		return cr.ts, cr.size, cr.root
+	}
+	return uint64(1700000000000 + c.TS), uint64(c.Size), w.Root(c)
+}
 
 // sigOf returns the signature bytes (a DigitallySigned) that key c.Signer made over the content of the plain
 // candidate c.  They are made once per candidate: ECDSA signatures are randomized, and a replayed signature is
@@ -303,12 +309,21 @@ func (w *World) sigOf(c Cand) []byte {
 	if ds, ok := w.sigs[key]; ok {
 		return ds
 	}
+	if c.IsHdr() {
+		panic(infra("sigOf of a member of the header family: " + key))
+	}
 	ds, err := ref.Sign(w.Keys[c.Signer], ref.STHSignatureInput(uint64(1700000000000+c.TS), uint64(c.Size), w.Root(c)))
 	if err != nil {
 		panic(err)
 	}
 	w.sigs[key] = ds
-	w.sigMemo[base64.StdEncoding.EncodeToString(ds)] = c
+	// RSA (PKCS#1 v1.5) signatures are deterministic: candidates that differ in the log_id field only share their
+	// signature bytes.  The memo keeps the first one that can be stored (log_id absent or right); TestTrace offers at
+	// most one such variant per content of an RSA log
+	b64 := base64.StdEncoding.EncodeToString(ds)
+	if old, ok := w.sigMemo[b64]; !ok || old.Idf == "wrong" {
+		w.sigMemo[b64] = c
+	}
 	return ds
 }
 
@@ -325,10 +340,19 @@ func (w *World) Raw(c Cand, target string) []byte {
 	if b, ok := w.rawMemo[key]; ok {
 		return b
 	}
-	root := w.Root(c)
-	ts := uint64(1700000000000 + c.TS)
+	ts, size, root := w.content(c)
 	var ds []byte
-	if c.IsReplay() {
+	if c.IsHdr() {
+		if c.IsReplay() {
+			panic(infra("a replayed signature under another header is not in the specification's families: " + c.String()))
+		}
+		ds = w.hdrSig(c, ts, size, root)
+		// a member of the header family must be a bad signature in fact, judged by std crypto (which wants the
+		// exact header for the key and SHA-256) and not by the code under test
+		if ref.Verify(w.Pub(c.Signer), ref.STHSignatureInput(ts, size, root), ds) == nil {
+			panic(infra("member of the header family carries a valid signature: " + c.String()))
+		}
+	} else if c.IsReplay() {
 		// the signature bytes of the donor, a genuine STH of log c.Signer with another content
 		d := c.DonorCand()
 		if bytes.Equal(w.Root(d), root) && d.Size == c.Size && d.TS == c.TS {
@@ -336,7 +360,7 @@ func (w *World) Raw(c Cand, target string) []byte {
 		}
 		ds = w.sigOf(d)
 		// a replayed signature must be a bad one in fact, judged by std crypto and not by the code under test
-		if k, ok := w.Keys[c.Signer]; !ok || ref.Verify(&k.PublicKey, ref.STHSignatureInput(ts, uint64(c.Size), root), ds) == nil {
+		if k, ok := w.Keys[c.Signer]; !ok || ref.Verify(k.Public(), ref.STHSignatureInput(ts, size, root), ds) == nil {
 			panic(infra("replayed signature verifies over the forged content: " + c.String()))
 		}
 	} else {
@@ -344,7 +368,7 @@ func (w *World) Raw(c Cand, target string) []byte {
 	}
 	m := map[string]any{
 		"sth_version":         0,
-		"tree_size":           c.Size,
+		"tree_size":           size,
 		"timestamp":           ts,
 		"sha256_root_hash":    base64.StdEncoding.EncodeToString(root),
 		"tree_head_signature": base64.StdEncoding.EncodeToString(ds),
@@ -376,17 +400,24 @@ func (w *World) Proof(label string, held, c Cand) [][]byte {
 	if held.K == "sth" {
 		from = held.Size
 	}
-	tree := w.Trees[c.Fam]
-	correct := [][]byte{}
-	if from > 0 && from < c.Size {
-		correct = tree.Consistency(from, c.Size)
-	}
 	rnd := func() []byte {
 		b := make([]byte, 32)
 		w.mu.Lock()
 		w.rng.Read(b)
 		w.mu.Unlock()
 		return b
+	}
+	if c.Fam == "X" {
+		// a crafted tree head: a tree nobody has, of a size nobody chose - there is no proof to be had, whatever the label
+		if held.K != "sth" || label == "empty" {
+			return [][]byte{}
+		}
+		return [][]byte{rnd(), rnd(), rnd()}
+	}
+	tree := w.Trees[c.Fam]
+	correct := [][]byte{}
+	if from > 0 && from < c.Size {
+		correct = tree.Consistency(from, c.Size)
 	}
 	if strings.HasPrefix(label, "from") {
 		k, _ := strconv.Atoi(label[4:])
@@ -540,7 +571,7 @@ func (w *World) NewInst(dsn string, maxConns int) (*Inst, error) {
 	}
 	known := map[string]ct.SignatureVerifier{}
 	for _, n := range []string{"L1", "L2"} {
-		sv, err := ct.NewSignatureVerifier(&w.Keys[n].PublicKey)
+		sv, err := ct.NewSignatureVerifier(w.Pub(n))
 		if err != nil {
 			return nil, err
 		}
@@ -649,7 +680,7 @@ func (w *World) Classify(body []byte, want Cand, target string) (kind, note stri
 	}
 	// the log's own signature must still be the (valid) one
 	dsLog := ref.DigitallySigned(byte(cs.TreeHeadSignature.Algorithm.Hash), byte(cs.TreeHeadSignature.Algorithm.Signature), cs.TreeHeadSignature.Signature)
-	if err := ref.Verify(&w.Keys[target].PublicKey, ref.STHSignatureInput(cs.Timestamp, cs.TreeSize, cs.SHA256RootHash[:]), dsLog); err != nil {
+	if err := ref.Verify(w.Pub(target), ref.STHSignatureInput(cs.Timestamp, cs.TreeSize, cs.SHA256RootHash[:]), dsLog); err != nil {
 		return "cosigned", "cosigned STH does not carry a valid signature of the log: " + err.Error()
 	}
 	// every cosignature verifies under the witness key over the STH it accompanies
@@ -798,7 +829,7 @@ func (w *World) Cosigned(body []byte) (Cosigned, bool) {
 		return out, true
 	}
 	dsLog := ref.DigitallySigned(byte(cs.TreeHeadSignature.Algorithm.Hash), byte(cs.TreeHeadSignature.Algorithm.Signature), cs.TreeHeadSignature.Signature)
-	if err := ref.Verify(&w.Keys[out.Log].PublicKey, ref.STHSignatureInput(cs.Timestamp, cs.TreeSize, cs.SHA256RootHash[:]), dsLog); err != nil {
+	if err := ref.Verify(w.Pub(out.Log), ref.STHSignatureInput(cs.Timestamp, cs.TreeSize, cs.SHA256RootHash[:]), dsLog); err != nil {
 		out.Note = "cosigned STH does not carry a valid signature of the log: " + err.Error()
 		return out, true
 	}
